@@ -13,6 +13,7 @@ mod util {
     pub(crate) mod sync_cell;
     pub(crate) mod task_set;
     pub(crate) mod slot;
+    pub(crate) mod seq_futures;
 }
 mod channel {
     pub(crate) mod queue;
